@@ -7,7 +7,7 @@ from harness import simcommon as S
 PID = "C01"
 GEN_GROUPS = ["Sim", "SimParams", "EvseZ"]
 TARGETS = ["coq/Props/C01.vo", "coq/Model/SimIface.vo"]
-CASES = {"quick": 300, "thorough": 8000}
+CASES = {"quick": 300, "thorough": 5000}
 CORR_HEADER = ("From Coq Require Import ZArith QArith List String.\n"
                "From ACN Require Import Base.Num Model.EVSE Model.SimSkel Model.SimIface.\nImport ListNotations.\n"
                "Open Scope string_scope.\nOpen Scope Z_scope.\n")
